@@ -140,6 +140,8 @@ def reader_rule(ctx, rep, half, name, b, expected_reads, helper_names, allow_sec
         # fills all N bytes or fails - but it must be a new local of exactly the header's length)
         fresh_arr = bo_[0] == "repeat" or (util.is_call(bo_) and "std::default::Default for [T; " in bo_[1] and not bo_[2])
         buf_ok = bty is not None and bty.k == "array" and bty.len == want_len and fresh_arr
+        if not buf_ok and want_len == 1 and bty is not None and bty.s == "u8" and bo_[0] == "int":
+            buf_ok = True       # a fresh local u8 handed over as its one-element slice (slice::from_mut)
         rep.check(rd_ok and buf_ok, "reader", fn, "read%d-buffer" % k, "read_exact(reader, &mut [0u8; %d])" % want_len, "read %d does not fill a fresh local [u8; %d] from the reader parameter (buffer type %s)" % (k, want_len, bty.s if bty else "?"), body.loc(bb))
         # (iii) cipher untouched when the read can fail
         st = se.in_state.get(bb, {}).get(self_root, self_root)
@@ -202,6 +204,22 @@ def reader_rule(ctx, rep, half, name, b, expected_reads, helper_names, allow_sec
         first = se.term_info[reads[0]]["term"]
         fa = [i for _, i in sorted(se.term_info.items()) if i.get("k") == "call" and i["name"].endswith("Header::from_array")]
         raw = [i for _, i in sorted(se.term_info.items()) if i.get("k") == "call" and i["name"] == half + "::decrypt"]
+        r_ = strip(se.ret)
+        if not fa and len(raw) == 1 and util.is_call(r_, "std::result::Result::<T, E>::map") and len(r_[2]) == 2 and r_[2][1][0] == "fn" and r_[2][1][1].endswith("Header::from_array"):
+            # `self.read_and_decrypt(reader).map(Header::from_array)`: the header's from_array applied
+            # to the Ok payload - the decrypted bytes just read -, an Err passed on as it is
+            oks_ = [se.assigns[(bi, si)][1] for bi, si, s_ in util.blocks_constructing(body, "std::result::Result", "Ok")]
+            x_ = strip(r_[2][0])
+            ins_ = [strip(v_) for v_ in se.phi_inputs.get((x_[2], x_[3]), {}).values()] if x_[0] == "phi" else [x_]
+            if len(oks_) == 1 and strip(oks_[0]) in ins_:
+                v = strip(oks_[0][4][0])
+                la0 = raw[0]["locargs"][0]
+                recv_ok = la0[0] == "ref" and strip(la0[1]) == ("param", 1) or la0 == ("ref", self_root, True)
+                chain = v[0] == "after" and strip(v[1]) == strip(raw[0]["term"]) and v[2] == 1 and strip(v[3])[0] == "after" and strip(strip(v[3])[1]) == strip(first) and strip(v[3])[2] == 1
+                kind_ok = ("Server" in r_[2][1][1]) == ("server" in name)
+                others_ = [i for i in se.term_info.values() if i.get("k") == "call" and i["name"] not in ("std::io::Read::read_exact", half + "::decrypt", "std::result::Result::<T, E>::map", FROM_RES) and not i["name"].endswith(" as std::ops::Try>::branch") and "std::default::Default for [T; " not in i["name"] and i["name"] not in util.IDENT_CALLS]
+                good = recv_ok and chain and kind_ok and not others_
+                desc = "read(..).map(%s::from_array) over self.decrypt(bytes just read)" % r_[2][1][1].split("::")[-2] if good else "mapped form: raw decrypt on self %s, of the bytes just read %s, header kind %s, other calls %s" % (recv_ok, chain, kind_ok, [i["name"] for i in others_])
         if len(fa) == 1 and len(raw) == 1:
             v = strip(fa[0]["args"][0])
             la0 = raw[0]["locargs"][0]
@@ -481,6 +499,10 @@ def wrath_reader_tail(ctx, rep, half, b):
         v = strip(a[1])
         # buf[0] of the 1-byte buffer just read
         good = a[0] == ("mutref", 0) and v[0] in ("cindex", "index") and v[1][0] == "after" and strip(v[1][1]) == strip(second) and (v[2] == 0 or v[2] == ("int", 0, "usize"))
+        if a[0] == ("mutref", 0) and not good:
+            # the fifth byte read into a plain `u8` through its one-element slice view
+            # (`read_exact(slice::from_mut(&mut last_byte))`): that byte as the read left it
+            good = v[0] == "after" and strip(v[1]) == strip(second) and v[2] == 1 and strip(v[3])[0] == "int"
         desc = "decrypt_large_server_header(self, fifth byte just read)"
         # it is only reached on the AdditionalByteRequired arm of the attempt
         att = [(b2, j) for b2, j in se.term_info.items() if j.get("k") == "call" and j["name"] == half + "::attempt_decrypt_server_header"]
